@@ -1,5 +1,3 @@
 SPECIFICATION TSpec
-CONSTANT Strict = TRUE
-INVARIANTS C17_Outputs C17_Live
 POSTCONDITION Accepted
 CHECK_DEADLOCK FALSE
